@@ -36,7 +36,8 @@ NAMES = ["a", "b", "ab"]
 VALUES = ["1", "2"]
 DOMAINS = ["ex.com", ".ex.com", "EX.com", "sub.ex.com", "other.org", None]
 TARGETS = ["ex.com", "sub.ex.com", "www.ex.com", "x.sub.ex.com", "other.org", "badex.com",
-           "ex.com.evil", "EX.COM", "Sub.Ex.Com", "com", ""]
+           "ex.com.evil", "EX.COM", "Sub.Ex.Com", "com", "",
+           "exxcom", "subxex.com"]        # a dot of the cookie domain replaced by another character
 CLIENT = [None, "a=1", "1", ""]      # caller cookies that also occur inside typical jar contents: nothing may be "de-duplicated"
 
 
